@@ -7,6 +7,7 @@ mod c07;
 mod c12;
 mod c13;
 mod c14;
+mod c16;
 mod c19;
 mod probes;
 
@@ -46,6 +47,7 @@ fn main() {
         ("gen", "C12") => c12::gen(&a),
         ("gen", "C13") => c13::gen(&a),
         ("gen", "C14") => c14::gen(&a),
+        ("gen", "C16") => c16::gen(&a),
         ("gen", "C19") => c19::gen(&a),
         _ => { eprintln!("unknown command/property"); std::process::exit(2); }
     }
